@@ -51,6 +51,6 @@ def cases(tier, seed):
     out = []
     shapes = [(b"password", b"alice"), (b"", b""), (b"p" * 300, b"a" * 255), (b"\x00", b"alice\x00")]
     for si, s in enumerate(suites_for(tier, seed)):
-        for k, (pw, cred) in enumerate(shapes if tier == "thorough" else shapes[:2]):
+        for k, (pw, cred) in enumerate(shapes if tier == "thorough" else shapes[:3]):
             out.append(dict(script=oblivious, suite=s, seed=seed * 10000 + si * 10 + k, mode="pattern", params=dict(pw=pw, cred=cred)))
     return out
